@@ -16,8 +16,9 @@
    the hash of its values, no two entries with equal values, ids distinct and below the counter), same
    children up to order, same counter, same well-formed views.  `op_wf`: label maps have distinct keys
    (they are Go maps). *)
-From Coq Require Import ZArith List Bool Permutation.
-From Verif Require Import Base.Str Gen.Gen_Consts Model.Vec Proofs.C07_proofs.
+From Coq Require Import ZArith List Bool Permutation Sorted.
+From Verif Require Import Base.Str Gen.Gen_Consts Base.Conc Model.CounterGauge Model.Vec Model.VecConc
+                          Proofs.C07_proofs Proofs.C07_conc.
 Import ListNotations.
 
 (* for EVERY hash, every label-name set, every constraint functions and every operation sequence:
@@ -131,6 +132,46 @@ Theorem vec_concurrent_linearizable :
   Permutation (entries (mm (c_st c'))) (s_map (lin_final init_sworld hist)) /\
   forall tid, nth tid progs [] = done_by tid hist ++ todo_of c' tid.
 Proof. exact C07_proofs.concurrent_linearizable. Qed.
+
+(* REAL-TIME linearizability under the interleaving semantics of Base/Conc.v.  `vec_machine H` executes one
+   critical section of metricMap per step (a lookup: RLock probe, then Lock re-check and create); time is
+   the number of steps executed; a call's c_inv is the time at which it was invoked, c_res the time at
+   which it returned.  For ANY hash, ANY thread programs and ANY schedule:
+   (1) the plain map (vec_spec_step), replayed over the calls in the order of the history, returns exactly
+       the results the calls returned, and the shared state satisfies the invariant and holds exactly the
+       map's children;
+   (2) that order is the order of the linearization points: the point of a call is the single step at
+       which it returns, the history is strictly sorted by it (res_lt), and it lies strictly after the
+       invocation and not after the response: 0 <= c_inv k < c_res k <= now;
+   (3) hence real-time order is respected: a call that returned before another one was invoked
+       (c_res a <= c_inv b) is replayed before it. *)
+Theorem vec_linearizable_realtime :
+  forall (H : values -> Z) (progs : list (list creq)) (sched : list Z),
+  let c := Conc.run_sched (vec_machine H) (Conc.init_config (vec_machine H) (mkM [] 0) progs) sched in
+  (exists s, seq_replay vec_spec_step init_sworld_c (map (@c_op (vec_machine H)) (hist c)) =
+               (s, map (@c_ret (vec_machine H)) (hist c)) /\
+             inv H (sh c) /\ Permutation (entries (mm (sh c))) (s_map s) /\ next (sh c) = s_next s) /\
+  StronglySorted res_lt (hist c) /\
+  Forall (fun k : call (vec_machine H) => (0 <= c_inv k < c_res k /\ c_res k <= now c)%Z) (hist c) /\
+  (forall i j a b, nth_error (hist c) i = Some a -> nth_error (hist c) j = Some b ->
+     (c_res a <= c_inv b)%Z -> (i < j)%nat).
+Proof. exact C07_conc.vec_linearizable_realtime_lemma. Qed.
+
+(* the executable real-time linearizability checker the harness applies to the implementation's histories
+   (Model/VecConc.v vec_lin_check = lin_check over the plain map) accepts every history of the machine ... *)
+Theorem vec_lin_check_complete :
+  forall (H : values -> Z) (progs : list (list creq)) (sched : list Z),
+  let c := Conc.run_sched (vec_machine H) (Conc.init_config (vec_machine H) (mkM [] 0) progs) sched in
+  vec_lin_check H (hist c) = true.
+Proof. exact C07_conc.vec_lin_check_complete_lemma. Qed.
+
+(* ... and is sound: when it accepts a history (of complete calls with invocation and response times)
+   there is a permutation of the calls that the plain map explains and in which no call comes after a
+   different call that was invoked only after it had returned *)
+Theorem vec_lin_check_sound :
+  forall (H : values -> Z) (h : list (call (vec_machine H))),
+  vec_lin_check H h = true -> exists h', Permutation h' h /\ linearization_of H init_sworld_c h'.
+Proof. exact C07_conc.vec_lin_check_sound_lemma. Qed.
 
 (* the production hooks compute FNV-1a (constants read from fnv.go by the translator) of
    value_1 FF value_2 FF ...; the theorems above therefore cover the production hash *)
